@@ -164,7 +164,8 @@ fn main() {
             let scn = Scenario::decode(arg(&args, "--scenario").expect("--scenario")).expect("scenario text");
             let key = arg(&args, "--key").expect("--key");
             let budget: usize = arg(&args, "--runs").unwrap_or("400").parse().unwrap();
-            let m = minimise(prop, &scn, key, budget);
+            let seconds: f64 = arg(&args, "--seconds").unwrap_or("60").parse().unwrap();
+            let m = minimise(prop, &scn, key, budget, seconds);
             println!(
                 "{{\"scenario\":{},\"decision_list\":{},\"hash\":\"{:016x}\",\"runs\":{},\"detail\":{},\"reproduced\":{}}}",
                 jstr(&m.scenario.encode()),
